@@ -285,13 +285,13 @@ func runEngineValid(c *Case) *Fail {
 	if err != nil {
 		return failf("engine/write-error", "Put: %v", err)
 	}
+	if f := checkPlaces("after-writes"); f != nil {
+		return f
+	}
 	if n := countFiles(sstDir, ".sst"); n == 0 {
 		return failf("engine/no-switch-at-configured-size",
 			"%d writes (> 2 x stored MemTableSize %d bytes of payload), background flush idle: no table file in the stored SSTDir %q",
 			writes, memSize, sstDir)
-	}
-	if f := checkPlaces("after-flush"); f != nil {
-		return f
 	}
 	if f := checkManifest("after-writes"); f != nil {
 		return f
